@@ -3,7 +3,7 @@ PROP = {
     "harness": "c01",
     "driver": "c01",
     "n_quick": 3000,
-    "n_thorough": 40000,
+    "n_thorough": 30000,
     "harness_timeout": 3000,
     "trusted": [
         "harness/cmd/c01/s2t: logical-tree generator, construction through the public secs2 constructors (argument shapes drawn from the PRNG), canonical rendering of items through public accessors, independent reference encoder used by the implementation-level oracle",
